@@ -45,6 +45,7 @@ type Cfg struct {
 
 type dgram struct {
 	id   int
+	pid  int // the datagram whose bytes this one carries (its own id, or an earlier datagram's: a duplicate on the wire)
 	xid  int
 	kind string
 	b    []byte
@@ -106,7 +107,11 @@ type Sim struct {
 	goFlag      atomic.Bool
 	ready       sync.WaitGroup
 	ncalls      []int // calls made so far per caller
+	callerEnt   map[string]int  // per role: the entry its current try registered
 	firing      map[string]bool // roles whose current call is a one-shot transmission
+	curRx       int             // the datagram the receive loop is working on
+	entQ        map[int][]int   // per entry: the datagrams delivered to its channel and not yet taken out, in order
+	lastWoken   map[string]int  // per role: the datagram its last receive wake-up took out
 }
 
 var gateEvents = map[string]bool{"SendPreLock": true, "SendPreTx": true, "Wake": true, "CancelPre": true,
@@ -230,11 +235,14 @@ func (s *Sim) normalize(e rawEvent) {
 	}
 	if e.role == "loop" && s.pendingRx != nil && e.ev != "LoopDrop" {
 		add("LoopRead", "d", s.pendingRx.args[0], "drop", "")
+		s.curRx = s.pendingRx.args[0].(int)
 		s.pendingRx = nil
 	}
 	switch e.ev {
 	case "SendRegistered":
-		add("SendLock", "c", c, "outcome", "registered", "ent", s.newEntID(e.args[1]))
+		id := s.newEntID(e.args[1])
+		s.callerEnt[e.role] = id
+		add("SendLock", "c", c, "outcome", "registered", "ent", id)
 	case "SendRefused":
 		add("SendLock", "c", c, "outcome", "refused", "ent", 0)
 	case "Tx":
@@ -263,7 +271,19 @@ func (s *Sim) normalize(e rawEvent) {
 		reason := e.args[0].(string)
 		d := 0
 		if reason == "recv" {
+			// which datagram: the head of this entry's channel (channels are FIFO); its bytes must be that datagram's
 			d = s.api.IDOf(e.args[1])
+			ent := s.callerEnt[e.role]
+			if q := s.entQ[ent]; len(q) > 0 && d > 0 {
+				head := q[0]
+				s.entQ[ent] = q[1:]
+				if s.dgrams[head-1].pid == d {
+					d = head
+				} else {
+					d = -1 // not the bytes of the datagram that was delivered first
+				}
+			}
+			s.lastWoken[e.role] = d
 		} else {
 			s.needProceed[e.role] = true
 		}
@@ -283,6 +303,13 @@ func (s *Sim) normalize(e rawEvent) {
 		add("CancelLock", "c", c, "removed", s.removed[e.role])
 		s.removed[e.role] = 0
 	case "Return":
+		if e.args[0] == "msg" { // the datagram returned: the one the last wake-up took out, if it carries those bytes
+			if w := s.lastWoken[e.role]; w > 0 && s.dgrams[w-1].pid == e.args[1].(int) {
+				e.args[1] = w
+			} else if e.args[1].(int) > 0 {
+				e.args[1] = -1
+			}
+		}
 		s.retd[c-1] = true
 		s.firing[e.role] = false
 		s.conn.mu.Lock()
@@ -304,7 +331,9 @@ func (s *Sim) normalize(e rawEvent) {
 		add("LoopLock", "found", e.args[1])
 	case "LoopDelivered":
 		s.loopHolds = false
-		add("LoopSelSend", "ent", s.entID(e.args[1]))
+		ent := s.entID(e.args[1])
+		s.entQ[ent] = append(s.entQ[ent], s.curRx)
+		add("LoopSelSend", "ent", ent)
 	case "LoopCloseEntry":
 		s.loopHolds = false
 		add("LoopSelDone", "ent", s.entID(e.args[1]))
@@ -472,9 +501,20 @@ func (s *Sim) fire(c int) bool {
 	return true
 }
 
+// injectDup: a datagram already seen arrives again, byte for byte (networks and relays duplicate)
+func (s *Sim) injectDup(orig int) {
+	o := s.dgrams[orig-1]
+	id := len(s.dgrams) + 1
+	d := &dgram{id: id, pid: o.pid, xid: o.xid, kind: o.kind, b: append([]byte(nil), o.b...)}
+	s.dgrams = append(s.dgrams, d)
+	s.emit("Inject", "d", id, "xid", d.xid, "kind", d.kind)
+	s.conn.push(d)
+	s.wait("loop")
+}
+
 func (s *Sim) inject(xid int, kind string) {
 	id := len(s.dgrams) + 1
-	d := &dgram{id: id, xid: xid, kind: kind, b: s.api.Datagram(id, xid, kind)}
+	d := &dgram{id: id, pid: id, xid: xid, kind: kind, b: s.api.Datagram(id, xid, kind)}
 	s.dgrams = append(s.dgrams, d)
 	s.emit("Inject", "d", id, "xid", xid, "kind", kind)
 	s.conn.push(d)
